@@ -2,6 +2,7 @@ import MindsVerif.Model.Lex
 import MindsVerif.Model.LexTab
 import MindsVerif.Model.Denote
 import MindsVerif.Model.LitRender
+import MindsVerif.Model.Codec
 import MindsVerif.Gen.Lex_sqlite
 import MindsVerif.Gen.Lex_mysql
 import MindsVerif.Gen.Lex_mindsdb
@@ -55,6 +56,9 @@ def handle (kw : Dialect → KwTable) (line : String) : String :=
     else if op == "read" then
       match readString dl s with | none => "none" | some (v, r) => s!"some {enc v} {enc r}"
     else if op == "enc" then enc (constantToString s)
+    else if op == "enc2" then enc (Codec.constantToString s)
+    else if op == "read2" then
+      match Codec.readString s with | none => "none" | some (v, r) => s!"some {enc v} {enc r}"
     else if op == "spec1" || op == "spec2" then
       let q := if op == "spec1" then '\'' else '"'
       match Denote.scan q (op == "spec1") s with
